@@ -25,8 +25,8 @@ var (
 	primRawRegex  = regexp.MustCompile(`MOV[A-Z]? \$(.+), (?:AX|BP)`)
 )
 
-// cmdDisasm (property C16). Prints a header (A key id for every architecture record; T key id count
-// (num xname)* for the records of the two parsers), then one result line per input line:
+// cmdDisasm (property C16). Prints a header (A key id mask for every architecture record; T key id mask count
+// (num xname)* for every record that has a table), then one result line per input line:
 //
 //	C id key mode xcontent   -> ExtractSyscalls(arch.<key>, path); mode file: path holds content;
 //	                            dir: path is a directory (the read fails); noent: path does not exist
@@ -44,16 +44,19 @@ func cmdDisasm() {
 	}
 	sort.Strings(keys)
 	for _, k := range keys {
-		fmt.Fprintf(w, "A %s %d\n", k, uint32(allArches[k].ID))
+		fmt.Fprintf(w, "A %s %d %d\n", k, uint32(allArches[k].ID), uint32(allArches[k].SeccompMask))
 	}
-	for _, k := range []string{"I386", "X86_64"} {
+	for _, k := range keys {
 		ai := allArches[k]
+		if len(ai.SyscallNumbers) == 0 {
+			continue
+		}
 		var nums []int
 		for n := range ai.SyscallNumbers {
 			nums = append(nums, n)
 		}
 		sort.Ints(nums)
-		fmt.Fprintf(w, "T %s %d %d", k, uint32(ai.ID), len(nums))
+		fmt.Fprintf(w, "T %s %d %d %d", k, uint32(ai.ID), uint32(ai.SeccompMask), len(nums))
 		for _, n := range nums {
 			fmt.Fprintf(w, " %d %s", n, hexs(ai.SyscallNumbers[n]))
 		}
